@@ -68,6 +68,50 @@ func Start(req *conformancev1.ServerCompatRequest) (*Server, error) {
 	return s, nil
 }
 
+var (
+	cacheMu sync.Mutex
+	cache   = map[string]*cachedServer{}
+)
+
+type cachedServer struct {
+	s    *Server
+	uses int
+}
+
+// Cached returns a long-lived server per key. The reference client leaves the
+// connections of its per-request transports open until process exit; run in-process
+// thousands of times that exhausts the descriptor limit, so the server is replaced
+// (and the old one stopped, which closes its connections) after maxUses calls.
+func Cached(key string, req *conformancev1.ServerCompatRequest, maxUses int) (*Server, error) {
+	cacheMu.Lock()
+	defer cacheMu.Unlock()
+	if c, ok := cache[key]; ok {
+		if c.uses < maxUses {
+			c.uses++
+			return c.s, nil
+		}
+		delete(cache, key)
+		old := c.s
+		go old.Stop()
+	}
+	s, err := Start(req)
+	if err != nil {
+		return nil, err
+	}
+	cache[key] = &cachedServer{s: s, uses: 1}
+	return s, nil
+}
+
+// StopCached stops every cached server.
+func StopCached() {
+	cacheMu.Lock()
+	defer cacheMu.Unlock()
+	for k, c := range cache {
+		c.s.Stop()
+		delete(cache, k)
+	}
+}
+
 // Addr returns host:port.
 func (s *Server) Addr() string { return fmt.Sprintf("%s:%d", s.Host, s.Port) }
 
